@@ -43,7 +43,7 @@ def partition_of(case, order, exe_hook):
     return frozenset(frozenset(blocks[int(m[1])].tag for m in grp[2][1][2]) for grp in g[2])
 
 
-def run(tier, seed, replay=None, variants=None, prop='C05', prefixes=('C05_',), rule=None):
+def run(tier, seed, replay=None, variants=None, prop='C05', prefixes=('C05_',), rule=None, extra_violations=None):
     rng = random.Random(seed)
     gate = cm.proof_gate(list(prefixes))
     n = 48 if tier == 'quick' else 640
@@ -94,7 +94,7 @@ def run(tier, seed, replay=None, variants=None, prop='C05', prefixes=('C05_',), 
     for (ti, _), r in zip(vjobs, vres):
         values[ti] = pe.parse_table(r['stdout'], 'V') if r['ok'] and r.get('run_ok') else 'VALUES-DO-NOT-COMPILE'
     stats = dict(cases=len(cases), programs=len(progs) + len(vjobs), variants=len(jobs), accepted_cases=0, rejected_cases=0)
-    violations, nontrivial, known_lines = [], set(), set()
+    violations, nontrivial, known_lines = list(extra_violations or []), set(), set()
     known = [k for k in cm.load_known() if k['property'] == prop and k['status'] == 'known']
     # corpus of fixed order-dependence findings: every program must compile and run
     import os
